@@ -33,6 +33,7 @@ OUTSIDE = ['Windows path semantics', 'path strings longer than the bound or '
            'over other alphabets', 'symbolic links']
 
 ROOT = '/w/r'
+HOME = os.path.expanduser('~')
 
 
 class Opened(Exception):
@@ -167,6 +168,12 @@ HARNESSES = [
                   root='/w/r', carts=['/w/r']),
              dict(Q, n=4, cart='/w/r/c.p8', cwd='/w/r', root='/w/r',
                   carts=['/w/r']),
+             # a cart directory literally named "~" (the name reaches picotool
+             # unexpanded): the root is that directory, not the home directory
+             dict(Q, n=2, prefix='../../', cart='~/c.p8', cwd=HOME + '/w',
+                  root=HOME + '/w/~'),
+             dict(Q, n=2, cart='~/c.p8', cwd=HOME + '/w',
+                  root=HOME + '/w/~'),
              # a sibling directory whose name differs from the root's only by
              # letter case
              dict(Q, n=3, prefix='../', alphabet='./rRa'),
